@@ -528,7 +528,13 @@ func c11random(c *Ctx, r *RNG, coll [][]string, maxOps int) {
 	}
 	g := coll[r.Intn(len(coll))]
 	pool := []string{"a", "b", g[0], g[1], g[2], "", "\xc3\xa9"}
-	npool := r.Range(1, len(pool))
+	if r.Chance(30) {
+		// non-ASCII messages that differ only in UTF-8 continuation bytes (a hash that skips bytes
+		// would make them share a budget), mixed with invalid UTF-8 and an ASCII control
+		pool = []string{"\xc3\xa9", "\xc3\xa8", "\xd0\xbe\xd1\x88", "\xd0\xbe\xd1\x82", "\xe7\xa3\x81\xe4\xb8\x80", "\xe7\xa3\x81\xe4\xba\x8c",
+			"a\xc3\xa9", "a\xc3\xa8", "\xf0\x9f\x98\x80", "\xf0\x9f\x98\x81", "\xff\xfe", "\xff\xfd", "a"}
+	}
+	npool := r.Range(2, len(pool))
 	lvls := []int8{-1, 0, 1, 2, 3, 4, 5}
 	nl := r.Range(1, 3)
 	base := []int64{0, int64(1700000000) * int64(time.Second), -50 * tick, 12345}[r.Intn(4)]
